@@ -36,6 +36,9 @@ def make_content(kind):
         return ["C", "E"], [("C", 4), ("E", 4)]
     if kind == "nc":
         return NoteContainer(["C", "E", "G"]), [("C", 4), ("E", 4), ("G", 4)]
+    if kind == "pairs":
+        # the documented nested list form [[name, octave], ...] (placements only)
+        return [["D", 5], ["F", 5]], [("D", 5), ("F", 5)]
     if kind == "rest":
         return None, None
     if kind == "empty_list":
@@ -240,6 +243,8 @@ class ContentSpec(BfsSpec):
             for v in ("4", "8"):
                 acts.append(["place", k, v])
         acts.append(["rest", "4"])
+        acts.append(["place", "pairs", "4"])
+        acts.append(["plus", "pairs"])
         for k in CONTENT_FORMS:
             acts.append(["plus", k])
         for i in (0, -1):
